@@ -343,6 +343,6 @@ int aln_seqseq_meetup(struct aln_mem* m,int old_cor[],int* meet,int* t,float* sc
         *meet = c;
         *t = transition;
         *score = max;
-        KALIGN_VERIF_EVENT(KV_EV_MEET_END, m, NULL, 0, c, transition);
+        KALIGN_VERIF_EVENT(KV_EV_MEET_END, m, &max, 0, c, transition);
         return OK;
 }
